@@ -48,10 +48,10 @@ def fill(template, rng, nums, strs):
     lines = []
     for l in template:
         while "{n}" in l:
-            # an operand of a comparison does not start with a sign or NOT: how the tool groups -X=1 and NOT X=1 is C01's
+            # an operand of a comparison contains no sign or NOT: how the tool groups -X=1 and NOT X=1 is C01's
             # subject (and its recorded findings), not this property's
             after = l[l.index("{n}") + 3:l.index("{n}") + 4]
-            pool = [t for t in nums if t[0] not in ("-", "NOT")] if after in ("=", ">", "<", "+") else nums
+            pool = [t for t in nums if "-" not in t and "NOT" not in t] if after in ("=", ">", "<", "+") else nums
             l = l.replace("{n}", gen.render(rng.choice(pool)), 1)
         while "{s}" in l:
             l = l.replace("{s}", gen.render(rng.choice(strs)), 1)
